@@ -133,11 +133,17 @@ def run_laws(case, r):
                     if c04.mname(method) == "bregman":
                         ow["L"] = 1.0 / w
                     sw = dist(method, shape, vs, a, b, ow, weight=w)
-                    # for Bregman the weighted problem is equivalent to the unweighted one with L/w ... only assert for Newton
+                    # Bregman with another penalty parameter is another iteration: only the bound is asserted here
                     if c04.mname(method) == "newton":
                         r.check(sw.exc is None and abs(sw.distance - w * d) <= 1e-8 * max(1.0, abs(w * d)), f"C05/scaling-weight/{method}", "a constant cell weight w scales the distance by w", w=w, d=d, d_weighted=None if sw.exc else sw.distance, cfg=tag)
                     else:
                         r.check(sw.exc is None and sw.distance >= w * fm * (1 - 1e-9) - 1e-12, f"C05/scaling-weight/{method}", "with a constant cell weight w the distance is at least w times the first-moment bound", w=w, d_weighted=None if sw.exc else sw.distance, cfg=tag)
+            # constant weight with all other options (also the Bregman penalty) unchanged, in every
+            # L1 / mobility mode: the distance is multiplied by the weight
+            if len(mode_list) > 1 or (l1, mob) == modes[0]:
+                for w in (0.5, 2.0, 3.0) if len(mode_list) > 1 else (4.0,):
+                    sw = dist(method, shape, vs, a, b, dict(o), weight=w)
+                    r.check(sw.exc is None and abs(sw.distance - w * d) <= 1e-8 * max(1.0, abs(w * d)), f"C05/scaling-weight/{method}/{mob}", "a constant cell weight w (all other options unchanged) scales the distance by w", w=w, d=d, d_weighted=None if sw.exc else sw.distance, cfg=tag)
 
 
 def run_thin(case, r):
